@@ -29,6 +29,8 @@ type Env struct {
 	oldBinds map[string]TVal // values of in-place parameters in the pre-state (used under old())
 	pkg      *types.Package
 	useCells bool
+	noAlias  bool
+	calleeFn *ssa.Function // contract applied at a call site: the callee (for renamed parameters)
 	fr       *Frame
 	errs     []string
 	ground   bool // stays true while no quantifier/fold was used
@@ -253,6 +255,25 @@ func (e *Env) ident(name string) TVal {
 					return TVal{T: e.ex.globalTerm(e.st, g), Ty: o.Type()}
 				}
 			}
+		}
+	}
+	// a local that was renamed since the contracts were pinned: same type, same position among the
+	// function's locals of that type (a proof hint may name the wrong variable; what is proved stays proved)
+	if !e.noAlias {
+		fn := e.calleeFn
+		if fn == nil && e.fr != nil {
+			fn = e.fr.fn
+		}
+		if fn == nil {
+			return e.errf("unknown identifier %q", name)
+		}
+		if nn := vc.prog.renamedLocal(fn, name); nn != "" && nn != name {
+			sub := *e
+			sub.noAlias = true
+			vc.note("contract of %s: %q no longer exists; read as %q (same type and position when the contracts were pinned)", vc.prog.funcName(fn), name, nn)
+			r := sub.ident(nn)
+			e.errs = sub.errs
+			return r
 		}
 	}
 	return e.errf("unknown identifier %q", name)
